@@ -23,8 +23,9 @@ def budget(tier):
 
 
 def gen_prog(rng):
-    prog = [['add', 0, 1, {'a': 1}], ['add', 0, 2, {'a': 1}], ['add', 1, 1, {'a': 0}], ['commit']]
-    alive = {(0, 1), (0, 2), (1, 1)}
+    k2 = rng.choice([0, 0, 2])          # a falsy primary key is a key like any other
+    prog = [['add', 0, 1, {'a': 1}], ['add', 0, k2, {'a': 1}], ['add', 1, 1, {'a': 0}], ['commit']]
+    alive = {(0, 1), (0, k2), (1, 1)}
     for _ in range(rng.randint(4, 12)):
         r = rng.random()
         if r < 0.3 and alive:
